@@ -313,7 +313,7 @@ class NetAddr():
             if isinstance(val, str):
                 res += self._strpad4(len(val))
             elif isinstance(val, (bytes, bytearray, memoryview)):
-                res += len(val) + 4  # Blob size bytes.
+                res += len(val) + (-len(val) % 4) + 4  # Padded blob + size bytes.
             elif isinstance(val, list):
                 # Arrays are messages converted to blobs.
                 res += self._calc_msg_dgram_size(val) + 4  # Blob size bytes.
